@@ -35,7 +35,7 @@ INDEX — clause of properties.jsonl#C20.statement → theorem(s)
   * byte lists, "wrapped bytes" .......... `jsbyte_exact_or_error`, `jsbyte_no_wrap`, `jsbyte_no_dropped_elements`
   * Duration ............................. `dur_exact_or_error` (only the quoted / whole text reaches the parser; exactness of the
                                            parser itself is relative to the hand-written model of `time.ParseDuration`)
-  * SQL scanners ......................... `scan_exact_or_error`, `scan_refuses_unsupported`, `stamp_scan_exact_or_error`
+  * SQL scanners ......................... `scan_exact_or_error`, `scan_complete`, `scan_refuses_unsupported`, `stamp_scan_exact_or_error`
   * tex.ToString / MapVal2String / ToStringList on the integer kinds: `tostring_denotes`, `tostring_decodes_back_signed`,
     `tostring_decodes_back_unsigned`, `tostring_is_marshal_text` (false of the `int(v)` shape: `witness_tostring_maxuint64`)
   * no panic on any JSON token ........... `panic_only_lone_quote`, `proved_panics_only_on_lone_quote`
@@ -399,6 +399,28 @@ theorem scan_exact_or_error (v : SqlVal) (ts : Int) (h : scanInt .strict v = .ok
   | str s => exact (denotesCore_of_parseInt (bits := 64) (by simpa [scanInt] using h)).1
   | time t => simp [scanInt] at h
   | null => simpa [scanInt, sqlDenotes] using h.symm
+
+/-- completeness of the repaired scanner: every driver value that denotes an int64 is accepted with exactly that value
+    (so a boundary slip such as `>=` for `>` in the uint64 range test changes the model's answer on MaxInt64) -/
+theorem scan_complete (v : SqlVal) (ts : Int) (hd : sqlDenotes v ts) (hlo : -(2 ^ 63 : Int) ≤ ts) (hhi : ts < 2 ^ 63) :
+    scanInt .strict v = .ok ts := by
+  cases v with
+  | i32 x => simp only [sqlDenotes] at hd; subst hd; rfl
+  | i64 x => simp only [sqlDenotes] at hd; subst hd; rfl
+  | int x => simp only [sqlDenotes] at hd; subst hd; rfl
+  | u32 x => simp only [sqlDenotes] at hd; subst hd; rfl
+  | u64 x =>
+    simp only [sqlDenotes] at hd; subst hd
+    simp only [scanInt]; rw [if_neg (by omega)]
+  | uint x =>
+    simp only [sqlDenotes] at hd; subst hd
+    simp only [scanInt]; rw [if_neg (by omega)]
+  | f64 w => exact absurd hd (by simp [sqlDenotes])
+  | bool b => exact absurd hd (by simp [sqlDenotes])
+  | bytes s => exact parseInt_of_denotesCore (bits := 64) (by omega) hd hlo hhi
+  | str s => exact parseInt_of_denotesCore (bits := 64) (by omega) hd hlo hhi
+  | time t => exact absurd hd (by simp [sqlDenotes])
+  | null => simp only [sqlDenotes] at hd; subst hd; rfl
 
 /-- … and whatever denotes no integer (float, bool, time, non-numeric text) is refused with an error -/
 theorem scan_refuses_unsupported (v : SqlVal) (hno : ∀ ts, ¬ sqlDenotes v ts) : ∃ e, scanInt .strict v = .err e := by
